@@ -34,6 +34,239 @@ Definition no_foreign (c : ck) (d : db) : Prop := forall x, ck_changed c (getrec
 Lemma db_frame_no_foreign c d d' : no_foreign c d -> db_frame c d d' -> forall x, d' x = d x.
 Proof. intros Hn H x. destruct (H x) as [E|[_ F]]; auto. rewrite Hn in F. discriminate. Qed.
 
+(* ------------------------------------------------------------------ merge_calc_dep: the fix-point
+   [creach tb vals t c]: c is a calc_dep of t as `run` ends up seeing it -- declared by t, or named under
+   'calc_dep' in the values of a calc_dep of t that is a task (to any depth). *)
+Inductive creach (tb : table) (vals : name -> cvals) (t : ltask) : name -> Prop :=
+| cr_own c : In c (l_calc_dep t) -> creach tb vals t c
+| cr_step c c' : creach tb vals t c -> lookup tb c <> None -> In c' (cv_calc_dep (vals c)) -> creach tb vals t c'.
+
+Lemma fold_addset_In l : forall acc x, In x (fold_left (fun a c => addset c a) l acc) <-> In x l \/ In x acc.
+Proof.
+  induction l as [|y l IH]; intros acc x; simpl.
+  - tauto.
+  - rewrite IH, addset_In. split; intros H; intuition auto.
+Qed.
+
+Lemma add_file_deps_In df extra f : In f (file_dep (add_file_deps df extra)) <-> In f extra \/ In f (file_dep df).
+Proof. unfold add_file_deps. simpl. exact (fold_addset_In extra (file_dep df) f). Qed.
+
+Lemma lookup_name tb : forall n x, lookup tb n = Some x -> l_name x = n /\ In x tb.
+Proof.
+  induction tb as [|t r IH]; intros n x H; simpl in H; [discriminate|].
+  destruct (lookup r n) eqn:E.
+  - inversion H; subst. destruct (IH n x E). split; auto. right; auto.
+  - destruct (N.eqb_spec (l_name t) n); inversion H; subst. split; auto. left; auto.
+Qed.
+Lemma lookup_in_names tb n : lookup tb n <> None -> In n (map l_name tb).
+Proof.
+  intros H. destruct (lookup tb n) eqn:E; [|congruence].
+  destruct (lookup_name tb n l E) as [<- Hin]. apply in_map. exact Hin.
+Qed.
+
+Lemma merge_todo_In tb done m c :
+  In c (merge_todo tb done m) <-> In c (m_calc m) /\ ~ In c done /\ lookup tb c <> None.
+Proof.
+  unfold merge_todo. rewrite filter_In, andb_true_iff, negb_true_iff, mem_false_In.
+  destruct (lookup tb c); split; intros (A & B & C); repeat split; auto; try discriminate; congruence.
+Qed.
+
+(* the loop invariant: [done] = the calc_dep tasks whose values were merged so far *)
+Record minv (tb : table) (vals : name -> cvals) (t : ltask) (done : list name) (m : mtask) : Prop := {
+  mi_done : forall c, In c done -> lookup tb c <> None /\ In c (m_calc m);
+  mi_sound : forall c, In c (m_calc m) -> creach tb vals t c;
+  mi_own : forall c, In c (l_calc_dep t) -> In c (m_calc m);
+  mi_closed : forall c c', In c done -> In c' (cv_calc_dep (vals c)) -> In c' (m_calc m);
+  mi_fd : forall f, In f (file_dep (m_def m)) <->
+                    In f (file_dep (l_def t)) \/ exists c, In c done /\ In f (cv_file_dep (vals c));
+  mi_td : forall x, In x (m_task_dep m) <->
+                    In x (l_task_dep t) \/ exists c, In c done /\ In x (cv_task_dep (vals c));
+  mi_rest : targets (m_def m) = targets (l_def t) /\ uptodate (m_def m) = uptodate (l_def t) /\
+            act_values (m_def m) = act_values (l_def t) /\ act_result (m_def m) = act_result (l_def t)
+}.
+
+Lemma minv_init tb vals t : minv tb vals t [] (minit t).
+Proof.
+  split; simpl.
+  - intros c [].
+  - intros c H. apply fold_addset_In in H. destruct H as [H|[]]. apply cr_own; auto.
+  - intros c H. apply fold_addset_In. auto.
+  - intros c c' [].
+  - intros f. split; [auto|]. intros [H|(c & [] & _)]; auto.
+  - intros x. split; [auto|]. intros [H|(c & [] & _)]; auto.
+  - auto.
+Qed.
+
+Lemma update_deps_calc_mono m x c : In c (m_calc m) -> In c (m_calc (update_deps m x)).
+Proof. intros H. simpl. apply fold_addset_In. auto. Qed.
+
+Lemma minv_step tb vals t done m c :
+  minv tb vals t done m -> In c (m_calc m) -> lookup tb c <> None ->
+  minv tb vals t (done ++ [c]) (update_deps m (vals c)).
+Proof.
+  intros I Hc Ht. destruct I as [Id Is Io Icl Ifd Itd Ir]. split.
+  - intros x H. apply in_app_iff in H. destruct H as [H|[<-|[]]].
+    + destruct (Id x H). split; auto. apply update_deps_calc_mono; auto.
+    + split; auto. apply update_deps_calc_mono; auto.
+  - intros x H. simpl in H. apply fold_addset_In in H. destruct H as [H|H]; auto.
+    eapply cr_step; eauto.
+  - intros x H. apply update_deps_calc_mono; auto.
+  - intros x x' H H'. simpl. apply fold_addset_In. apply in_app_iff in H. destruct H as [H|[<-|[]]]; auto.
+    right. eapply Icl; eauto.
+  - intros f. unfold update_deps. cbn [m_def]. rewrite add_file_deps_In, Ifd. split.
+    + intros [H|[H|(x & Hx & Hf)]]; auto.
+      * right. exists c. split; auto. apply in_app_iff. right. left. reflexivity.
+      * right. exists x. split; auto. apply in_app_iff. auto.
+    + intros [H|(x & Hx & Hf)]; auto. apply in_app_iff in Hx. destruct Hx as [Hx|[<-|[]]]; auto.
+      right. right. exists x. auto.
+  - intros x. simpl. rewrite in_app_iff, Itd. split.
+    + intros [[H|(y & Hy & Hf)]|H]; auto.
+      * right. exists y. split; auto. apply in_app_iff. auto.
+      * right. exists c. split; auto. apply in_app_iff. right. left. reflexivity.
+    + intros [H|(y & Hy & Hf)]; auto. apply in_app_iff in Hy. destruct Hy as [Hy|[<-|[]]]; auto.
+      left. right. exists y. auto.
+  - simpl. exact Ir.
+Qed.
+
+Lemma minv_fold tb vals t : forall todo done m,
+  minv tb vals t done m -> (forall c, In c todo -> In c (m_calc m) /\ lookup tb c <> None) ->
+  minv tb vals t (done ++ todo) (fold_left (fun m' c => update_deps m' (vals c)) todo m).
+Proof.
+  induction todo as [|c r IH]; intros done m I H; simpl.
+  - rewrite app_nil_r. exact I.
+  - replace (done ++ c :: r) with ((done ++ [c]) ++ r) by (rewrite <- app_assoc; reflexivity).
+    apply IH.
+    + destruct (H c (or_introl eq_refl)). apply minv_step; auto.
+    + intros x Hx. destruct (H x (or_intror Hx)). split; auto. apply update_deps_calc_mono; auto.
+Qed.
+
+(* the loop ends in a state where every calc_dep that is a task has been merged *)
+Lemma merge_loop_inv tb vals t : forall fuel done m m',
+  minv tb vals t done m -> merge_loop fuel tb vals done m = Some m' ->
+  exists done', minv tb vals t done' m' /\ merge_todo tb done' m' = [].
+Proof.
+  induction fuel as [|k IH]; intros done m m' I H; [discriminate|]. cbn [merge_loop] in H.
+  destruct (merge_todo tb done m) as [|c r] eqn:E.
+  - inversion H; subst. exists done. auto.
+  - eapply IH; [|exact H]. apply minv_fold; auto.
+    intros x Hx. rewrite <- E in Hx. apply merge_todo_In in Hx. tauto.
+Qed.
+
+Lemma minv_final tb vals t done m :
+  minv tb vals t done m -> merge_todo tb done m = [] ->
+  (forall c, In c (m_calc m) <-> creach tb vals t c) /\
+  (forall c, In c done <-> creach tb vals t c /\ lookup tb c <> None).
+Proof.
+  intros I E.
+  assert (Hd : forall c, In c (m_calc m) -> lookup tb c <> None -> In c done).
+  { intros c Hc Ht. destruct (mem c done) eqn:M; [apply mem_In; auto|].
+    apply mem_false_In in M. assert (X : In c (merge_todo tb done m)) by (apply merge_todo_In; auto).
+    rewrite E in X. destruct X. }
+  assert (Hr : forall c, creach tb vals t c -> In c (m_calc m)).
+  { intros c R. induction R as [c H|c c' R IHR Ht Hin].
+    - apply (mi_own _ _ _ _ _ I); auto.
+    - eapply (mi_closed _ _ _ _ _ I); eauto. }
+  split; intros c; split.
+  - apply (mi_sound _ _ _ _ _ I).
+  - apply Hr.
+  - intros H. destruct (mi_done _ _ _ _ _ I c H). split; auto. apply (mi_sound _ _ _ _ _ I); auto.
+  - intros [R Ht]. auto.
+Qed.
+
+(* fuel: the tasks not marked yet *)
+Definition rem_tasks (tb : table) (done : list name) : nat :=
+  length (filter (fun n => negb (mem n done)) (map l_name tb)).
+
+Lemma filter_length_lt {A} (f g : A -> bool) (c : A) : forall l,
+  (forall x, g x = true -> f x = true) -> In c l -> f c = true -> g c = false ->
+  (length (filter g l) < length (filter f l))%nat.
+Proof.
+  intros l Hgf. induction l as [|y l IH]; intros Hin Hf Hg; [destruct Hin|].
+  assert (Hle : forall l', (length (filter g l') <= length (filter f l'))%nat).
+  { induction l' as [|z l' IH']; simpl; auto. destruct (g z) eqn:Gz.
+    - rewrite (Hgf z Gz). simpl. lia.
+    - destruct (f z); simpl; lia. }
+  simpl. destruct Hin as [->|Hin].
+  - rewrite Hf, Hg. simpl. specialize (Hle l). lia.
+  - specialize (IH Hin Hf Hg). destruct (g y) eqn:Gy.
+    + rewrite (Hgf y Gy). simpl. lia.
+    + destruct (f y); simpl; lia.
+Qed.
+
+Lemma merge_loop_some tb vals : forall fuel done m,
+  (rem_tasks tb done < fuel)%nat -> merge_loop fuel tb vals done m <> None.
+Proof.
+  induction fuel as [|k IH]; intros done m H; [lia|]. simpl.
+  destruct (merge_todo tb done m) as [|c r] eqn:E; [discriminate|].
+  apply IH.
+  assert (Hc : In c (merge_todo tb done m)) by (rewrite E; left; reflexivity).
+  apply merge_todo_In in Hc. destruct Hc as (_ & Hnd & Ht).
+  assert ((rem_tasks tb (done ++ c :: r) < rem_tasks tb done)%nat); [|lia].
+  unfold rem_tasks. apply (filter_length_lt _ _ c).
+  - intros x Hx. apply negb_true_iff in Hx. apply negb_true_iff.
+    apply mem_false_In in Hx. apply mem_false_In. intros Hin. apply Hx. apply in_app_iff. auto.
+  - apply lookup_in_names; auto.
+  - apply negb_true_iff. apply mem_false_In. exact Hnd.
+  - apply negb_false_iff. apply mem_In. apply in_app_iff. right. left. reflexivity.
+Qed.
+
+Lemma filter_len_le {A} (f : A -> bool) l : (length (filter f l) <= length l)%nat.
+Proof. induction l as [|x l IH]; simpl; auto. destruct (f x); simpl; lia. Qed.
+
+(* one more round than there are tasks is enough: the out-of-fuel value never occurs *)
+Lemma merged_some tb vals t : merged tb vals t <> None.
+Proof.
+  unfold merged. apply merge_loop_some. unfold rem_tasks.
+  pose proof (filter_len_le (fun n => negb (mem n [])) (map l_name tb)) as H. rewrite map_length in H. lia.
+Qed.
+Lemma merged_run_task tb vals t : merged tb vals t = Some (run_task tb vals t).
+Proof. unfold run_task. destruct (merged tb vals t) eqn:E; auto. destruct (merged_some tb vals t E). Qed.
+
+(* what the merged Task object holds: exactly the reachable calc_dep and their contributions *)
+Theorem T_merge_reaches tb vals t :
+  let m := run_task tb vals t in
+  merged tb vals t = Some m /\
+  (forall c, In c (m_calc m) <-> creach tb vals t c) /\
+  (forall f, In f (file_dep (m_def m)) <->
+     In f (file_dep (l_def t)) \/ exists c, creach tb vals t c /\ lookup tb c <> None /\ In f (cv_file_dep (vals c))) /\
+  (forall x, In x (m_task_dep m) <->
+     In x (l_task_dep t) \/ exists c, creach tb vals t c /\ lookup tb c <> None /\ In x (cv_task_dep (vals c))) /\
+  targets (m_def m) = targets (l_def t) /\ uptodate (m_def m) = uptodate (l_def t) /\
+  act_values (m_def m) = act_values (l_def t) /\ act_result (m_def m) = act_result (l_def t).
+Proof.
+  cbv zeta. pose proof (merged_run_task tb vals t) as E. split; [exact E|].
+  unfold merged in E. destruct (merge_loop_inv tb vals t _ _ _ _ (minv_init tb vals t) E) as (done & I & F).
+  destruct (minv_final tb vals t done _ I F) as [Hc Hd]. split; [exact Hc|]. split; [|split].
+  - intros f. rewrite (mi_fd _ _ _ _ _ I). split; (intros [H|(c & Hx & Hf)]; [auto|right; exists c]).
+    + apply Hd in Hx. tauto.
+    + destruct Hf as (A & B). split; auto. apply Hd. tauto.
+  - intros x. rewrite (mi_td _ _ _ _ _ I). split; (intros [H|(c & Hx & Hf)]; [auto|right; exists c]).
+    + apply Hd in Hx. tauto.
+    + destruct Hf as (A & B). split; auto. apply Hd. tauto.
+  - exact (mi_rest _ _ _ _ _ I).
+Qed.
+
+(* ... a fix-point of Task.update_deps: merging the values of any calc_dep once more adds nothing *)
+Theorem T_merge_closed tb vals t c :
+  let m := run_task tb vals t in
+  In c (m_calc m) -> lookup tb c <> None ->
+  (forall c', In c' (m_calc (update_deps m (vals c))) <-> In c' (m_calc m)) /\
+  (forall f, In f (file_dep (m_def (update_deps m (vals c)))) <-> In f (file_dep (m_def m))) /\
+  (forall x, In x (m_task_dep (update_deps m (vals c))) <-> In x (m_task_dep m)).
+Proof.
+  cbv zeta. intros Hc Ht. destruct (T_merge_reaches tb vals t) as (_ & Rc & Rf & Rt & _). cbv zeta in *.
+  apply Rc in Hc. split; [|split].
+  - intros c'. simpl. rewrite fold_addset_In. split; [|auto]. intros [H|H]; auto.
+    apply Rc. eapply cr_step; eauto.
+  - intros f. unfold update_deps. cbn [m_def]. rewrite add_file_deps_In. split; [|auto]. intros [H|H]; auto.
+    apply Rf. right. exists c. auto.
+  - intros x. simpl. rewrite in_app_iff. split; [|auto]. intros [H|H]; auto.
+    apply Rt. right. exists c. auto.
+Qed.
+
+Lemma run_def_no_calc tb vals t : l_calc_dep t = [] -> run_def tb vals t = l_def t.
+Proof. intros H. unfold run_def, run_task, merged, minit. rewrite H. reflexivity. Qed.
+
 Section IntrospectP.
 Variable md5 : N -> N.
 Variable v : ver.
@@ -94,20 +327,18 @@ Proof. intros x; auto. Qed.
 
 Definition is_task_line (l : lline) : bool := match l with LTask _ _ => true | _ => false end.
 
-Lemma run_def_no_calc tb fd t : l_calc_dep t = [] -> run_def tb fd t = l_def t.
-Proof. unfold run_def. intros ->. reflexivity. Qed.
 
 (* ------------------------------------------------------------------ the commands (any code version [iv]) *)
 Section Cmds.
 Variable iv : iver.
-Variable cf : name -> list file.
+Variable cv : name -> cvals.
 Variable tb : table.
 
-Notation task_status := (task_status md5 v iv cf tb).
-Notation print_tasks := (print_tasks md5 v iv cf tb).
-Notation info_cmd := (info_cmd md5 v iv cf tb).
-Notation status_letters := (status_letters md5 v iv cf tb).
-Notation shown_def := (shown_def iv cf tb).
+Notation task_status := (task_status md5 v iv cv tb).
+Notation print_tasks := (print_tasks md5 v iv cv tb).
+Notation info_cmd := (info_cmd md5 v iv cv tb).
+Notation status_letters := (status_letters md5 v iv cv tb).
+Notation shown_def := (shown_def iv cv tb).
 
 Lemma task_status_frame c fs d t : db_frame c d (snd (task_status c fs d t)).
 Proof.
@@ -128,7 +359,7 @@ Proof.
     + specialize (IH d). destruct (print_tasks c fs o pl d); simpl in *; auto; apply db_frame_refl.
 Qed.
 
-Lemma list_cmd_frame name_ltb o c fs d : db_frame c d (lres_db d (list_cmd md5 v name_ltb iv cf tb o c fs d)).
+Lemma list_cmd_frame name_ltb o c fs d : db_frame c d (lres_db d (list_cmd md5 v name_ltb iv cv tb o c fs d)).
 Proof.
   unfold Introspect.list_cmd. destruct (print_list name_ltb tb o); simpl; try apply db_frame_refl.
   apply print_tasks_frame.
@@ -218,7 +449,7 @@ Proof.
     + exists t'. split; [right; auto|]. auto.
 Qed.
 
-Lemma filter_dep_lines o d t : filter is_task_line (dep_lines iv cf tb o d t) = [].
+Lemma filter_dep_lines o d t : filter is_task_line (dep_lines iv cv tb o d t) = [].
 Proof.
   unfold dep_lines. destruct (o_list_deps o); auto.
   rewrite filter_app. simpl. rewrite app_nil_r. induction (file_dep _); simpl; auto.
@@ -816,34 +1047,34 @@ Proof.
   split; [|exact E]. apply ck_changed_foreign; auto.
 Qed.
 
-Lemma T_list_frame : forall (md5 : N -> N) (v : ver) (name_ltb : name -> name -> bool) (iv : iver) (cf : name -> list file)
+Lemma T_list_frame : forall (md5 : N -> N) (v : ver) (name_ltb : name -> name -> bool) (iv : iver) (cv : name -> cvals)
     (tb : table) (o : lopts) (c : ck) (fs : fsys) (d : db) (b : backend) (x : name),
-  let d' := persisted b d (lres_db d (list_cmd md5 v name_ltb iv cf tb o c fs d)) in
+  let d' := persisted b d (lres_db d (list_cmd md5 v name_ltb iv cv tb o c fs d)) in
   d' x = d x \/ (d' x = None /\ exists p, r_checker (getrec d x) = Some p /\ p <> c).
 Proof.
-  intros md5 v lt iv cf tb o c fs d b x. cbv zeta.
-  destruct (persisted_frame b c d _ (list_cmd_frame md5 v iv cf tb lt o c fs d) x) as [E|[E F]]; [left; exact E|right].
+  intros md5 v lt iv cv tb o c fs d b x. cbv zeta.
+  destruct (persisted_frame b c d _ (list_cmd_frame md5 v iv cv tb lt o c fs d) x) as [E|[E F]]; [left; exact E|right].
   split; [exact E|]. apply ck_changed_foreign; auto.
 Qed.
 
-Lemma T_info_frame : forall (md5 : N -> N) (v : ver) (iv : iver) (cf : name -> list file) (tb : table) (pos : list name) (hide : bool)
+Lemma T_info_frame : forall (md5 : N -> N) (v : ver) (iv : iver) (cv : name -> cvals) (tb : table) (pos : list name) (hide : bool)
     (c : ck) (fs : fsys) (d : db) (b : backend) (x : name),
-  let d' := persisted b d (ires_db d (info_cmd md5 v iv cf tb pos hide c fs d)) in
+  let d' := persisted b d (ires_db d (info_cmd md5 v iv cv tb pos hide c fs d)) in
   d' x = d x \/ (d' x = None /\ exists p, r_checker (getrec d x) = Some p /\ p <> c).
 Proof.
-  intros md5 v iv cf tb pos hide c fs d b x. cbv zeta.
-  destruct (persisted_frame b c d _ (info_cmd_frame md5 v iv cf tb pos hide c fs d) x) as [E|[E F]]; [left; exact E|right].
+  intros md5 v iv cv tb pos hide c fs d b x. cbv zeta.
+  destruct (persisted_frame b c d _ (info_cmd_frame md5 v iv cv tb pos hide c fs d) x) as [E|[E F]]; [left; exact E|right].
   split; [exact E|]. apply ck_changed_foreign; auto.
 Qed.
 
-Lemma T_no_query_no_change : forall (md5 : N -> N) (v : ver) (name_ltb : name -> name -> bool) (iv : iver) (cf : name -> list file)
+Lemma T_no_query_no_change : forall (md5 : N -> N) (v : ver) (name_ltb : name -> name -> bool) (iv : iver) (cv : name -> cvals)
     (tb : table) (o : lopts) (pos : list name) (c : ck) (fs : fsys) (d : db),
-  (o_status o = false -> lres_db d (list_cmd md5 v name_ltb iv cf tb o c fs d) = d) /\
-  ires_db d (info_cmd md5 v iv cf tb pos true c fs d) = d /\
+  (o_status o = false -> lres_db d (list_cmd md5 v name_ltb iv cv tb o c fs d) = d) /\
+  ires_db d (info_cmd md5 v iv cv tb pos true c fs d) = d /\
   (no_foreign c d -> forall hide x,
-     lres_db d (list_cmd md5 v name_ltb iv cf tb o c fs d) x = d x /\ ires_db d (info_cmd md5 v iv cf tb pos hide c fs d) x = d x).
+     lres_db d (list_cmd md5 v name_ltb iv cv tb o c fs d) x = d x /\ ires_db d (info_cmd md5 v iv cv tb pos hide c fs d) x = d x).
 Proof.
-  intros md5 v lt iv cf tb o pos c fs d. split; [|split].
+  intros md5 v lt iv cv tb o pos c fs d. split; [|split].
   - intros Hs. unfold list_cmd. destruct (print_list lt tb o); simpl; auto. apply print_tasks_no_status; auto.
   - apply info_hide_db.
   - intros Hn hide x. split; apply (db_frame_no_foreign c d _ Hn).
@@ -851,19 +1082,19 @@ Proof.
     + apply info_cmd_frame.
 Qed.
 
-Lemma T_readonly_as_history : forall (md5 : N -> N) (size_of : N -> Z) (v : ver) (iv : iver) (cf : name -> list file) (tb : table)
+Lemma T_readonly_as_history : forall (md5 : N -> N) (size_of : N -> Z) (v : ver) (iv : iver) (cv : name -> cvals) (tb : table)
     (s : state) (o : lopts) (pl : list ltask) (lines : list lline) (d' : db),
-  (forall t dk, In t pl -> shown_def iv cf tb dk t = s_defs s (l_name t)) ->
-  print_tasks md5 v iv cf tb (s_ck s) (s_fs s) o pl (s_db s) = LOk lines d' ->
+  (forall t dk, In t pl -> shown_def iv cv tb dk t = s_defs s (l_name t)) ->
+  print_tasks md5 v iv cv tb (s_ck s) (s_fs s) o pl (s_db s) = LOk lines d' ->
   let ops := list_ops (s_db s) (o_status o) pl in
   forallb query_op ops = true /\
   s_db (run_from md5 size_of v s ops) = d' /\
   same_world s (run_from md5 size_of v s ops) /\
   (forall hide n, forallb query_op (info_ops hide n) = true /\ same_world s (run_from md5 size_of v s (info_ops hide n))).
 Proof.
-  intros md5 size_of v iv cf tb s o pl lines d' Hdef H. cbv zeta.
+  intros md5 size_of v iv cv tb s o pl lines d' Hdef H. cbv zeta.
   split; [apply list_ops_query|].
-  split; [exact (print_tasks_as_history md5 v iv cf tb size_of o pl s lines d' Hdef H (s_db s) (ign_frame_refl _))|].
+  split; [exact (print_tasks_as_history md5 v iv cv tb size_of o pl s lines d' Hdef H (s_db s) (ign_frame_refl _))|].
   split; [apply query_run_world; apply list_ops_query|].
   intros hide n. split; [apply info_ops_query | apply query_run_world; apply info_ops_query].
 Qed.
@@ -879,28 +1110,28 @@ Proof.
   rewrite Hd in Hc. intros e. exact (clean_tasks_dry _ _ _ _ _ _ e Hc).
 Qed.
 
-Lemma T_list_agrees : forall (md5 : N -> N) (v : ver) (name_ltb : name -> name -> bool) (iv : iver) (cf : name -> list file)
+Lemma T_list_agrees : forall (md5 : N -> N) (v : ver) (name_ltb : name -> name -> bool) (iv : iver) (cv : name -> cvals)
     (tb : table) (o : lopts) (c : ck) (fs : fsys) (d : db) (pl : list ltask) (lines : list lline) (d' : db),
   fixCalc iv = true ->
   print_list name_ltb tb o = POk pl -> o_status o = true ->
-  list_cmd md5 v name_ltb iv cf tb o c fs d = LOk lines d' ->
-  filter is_task_line lines = map (fun x => LTask (fst (fst x)) (snd (fst x))) (status_letters md5 v iv cf tb c fs pl d) /\
-  forall n l dk, In (n, l, dk) (status_letters md5 v iv cf tb c fs pl d) ->
+  list_cmd md5 v name_ltb iv cv tb o c fs d = LOk lines d' ->
+  filter is_task_line lines = map (fun x => LTask (fst (fst x)) (snd (fst x))) (status_letters md5 v iv cv tb c fs pl d) /\
+  forall n l dk, In (n, l, dk) (status_letters md5 v iv cv tb c fs pl d) ->
     (forall x, dk x = d x \/ (dk x = None /\ ck_changed c (getrec d x) = true)) /\
     exists t, In t pl /\ n = l_name t /\
-              l = decision_letter (run_decision md5 v c fs dk n (run_def tb (saved_fd cf dk) t)).
+              l = decision_letter (run_decision md5 v c fs dk n (run_def tb (saved_cv cv dk) t)).
 Proof.
-  intros md5 v lt iv cf tb o c fs d pl lines d' Hfix Hpl Hs H. unfold list_cmd in H. rewrite Hpl in H.
-  split; [exact (print_tasks_letters md5 v iv cf tb c fs o pl Hs d lines d' H)|].
-  intros n l dk Hin. destruct (status_letters_spec md5 v iv cf tb c fs pl d n l dk Hin) as (F & t & A & B & C).
+  intros md5 v lt iv cv tb o c fs d pl lines d' Hfix Hpl Hs H. unfold list_cmd in H. rewrite Hpl in H.
+  split; [exact (print_tasks_letters md5 v iv cv tb c fs o pl Hs d lines d' H)|].
+  intros n l dk Hin. destruct (status_letters_spec md5 v iv cv tb c fs pl d n l dk Hin) as (F & t & A & B & C).
   split; [exact F|]. exists t. split; auto. split; auto. rewrite C. unfold shown_def. rewrite Hfix. reflexivity.
 Qed.
 
-Lemma T_list_agrees_one : forall (md5 : N -> N) (v : ver) (iv : iver) (cf : name -> list file) (tb : table) (c : ck) (fs : fsys) (d : db) (t : ltask),
+Lemma T_list_agrees_one : forall (md5 : N -> N) (v : ver) (iv : iver) (cv : name -> cvals) (tb : table) (c : ck) (fs : fsys) (d : db) (t : ltask),
   fixCalc iv = true ->
-  fst (task_status md5 v iv cf tb c fs d t) = decision_letter (run_decision md5 v c fs d (l_name t) (run_def tb (saved_fd cf d) t)).
+  fst (task_status md5 v iv cv tb c fs d t) = decision_letter (run_decision md5 v c fs d (l_name t) (run_def tb (saved_cv cv d) t)).
 Proof.
-  intros md5 v iv cf tb c fs d t Hfix. rewrite task_status_decision. unfold shown_def. rewrite Hfix. reflexivity.
+  intros md5 v iv cv tb c fs d t Hfix. rewrite task_status_decision. unfold shown_def. rewrite Hfix. reflexivity.
 Qed.
 
 Lemma T_reachable_no_typeerror : forall (md5 : N -> N) (size_of : N -> Z) (ops : list op) (t : name) (df : tdef) (gl : bool),
@@ -926,23 +1157,23 @@ Qed.
 
 (* the status line of `info` (repaired code) is the decision of `run`: always for an ignored task and
    for the verdict up-to-date, and in every case when all file dependencies exist *)
-Lemma T_info_cmd_agrees_partial : forall (md5 : N -> N) (v : ver) (iv : iver) (cf : name -> list file) (tb : table)
+Lemma T_info_cmd_agrees_partial : forall (md5 : N -> N) (v : ver) (iv : iver) (cv : name -> cvals) (tb : table)
     (n : name) (t : ltask) (c : ck) (fs : fsys) (d : db) (st : istatus) (lines : list iline) (rc : Z) (d' : db),
   fixCalc iv = true -> fixIgn iv = true ->
   lookup tb n = Some t ->
-  info_cmd md5 v iv cf tb [n] false c fs d = IOk st lines rc d' ->
-  let x := run_decision md5 v c fs d (l_name t) (run_def tb (saved_fd cf d) t) in
+  info_cmd md5 v iv cv tb [n] false c fs d = IOk st lines rc d' ->
+  let x := run_decision md5 v c fs d (l_name t) (run_def tb (saved_cv cv d) t) in
   (x = DIgnore <-> st = IIgnored) /\
   (x = DUpToDate <-> st = IStatus UpToDate) /\
-  ((forall f, In f (file_dep (run_def tb (saved_fd cf d) t)) -> fs f <> None) -> istatus_decision st = Some x).
+  ((forall f, In f (file_dep (run_def tb (saved_cv cv d) t)) -> fs f <> None) -> istatus_decision st = Some x).
 Proof.
-  intros md5 v iv cf tb n t c fs d st lines rc d' Hc Hi Hl H. cbv zeta.
-  destruct (info_cmd_status md5 v iv cf tb n t c fs d st lines rc d' Hl H) as [(Ei & -> & _)|(Ei & Hst)].
+  intros md5 v iv cv tb n t c fs d st lines rc d' Hc Hi Hl H. cbv zeta.
+  destruct (info_cmd_status md5 v iv cv tb n t c fs d st lines rc d' Hl H) as [(Ei & -> & _)|(Ei & Hst)].
   - rewrite Hi in Ei. simpl in Ei. unfold run_decision. rewrite Ei.
     split; [tauto|]. split; [split; discriminate|]. reflexivity.
   - cbv zeta in Hst. destruct Hst as (-> & Hnc & _ & _). rewrite Hi in Ei. simpl in Ei.
     unfold shown_def in *. rewrite Hc in *.
-    set (df := run_def tb (saved_fd cf d) t) in *.
+    set (df := run_def tb (saved_cv cv d) t) in *.
     unfold run_decision. rewrite Ei.
     split; [split; [intros X|discriminate]|].
     { destruct (g_status (get_status md5 v c fs d (l_name t) df false)); discriminate. }
